@@ -421,12 +421,48 @@ fn on_big_stack<T: Send>(f: impl FnOnce() -> T + Send) -> T {
     })
 }
 
+/// The reference run of a program: one scanner thread over the files of `knobs.partition[0]`. A
+/// plain sequential evaluation, unless the program creates threads of its own or waits on a
+/// condition variable: then the same single scanner thread runs under the controlled scheduler
+/// (fixed seed), next to the program's own threads.
+fn reference_run(w: &Workload, forms: &[Sexp], knobs: Knobs) -> (Arc<Runtime>, Result<(), EvalErr>) {
+    let rt = Arc::new(Runtime::new(false, w.files.clone(), knobs.clone()));
+    let r = on_big_stack(|| rt.run_program(forms));
+    let in_policy = rt.log.lock().unwrap().iter().any(|e| matches!(e, Ev::Error { error: EvalErr::Runtime(m), .. } if m == crate::eval::NEEDS_THREADS));
+    if !in_policy && !matches!(&r, Err(EvalErr::Runtime(m)) if m == crate::eval::NEEDS_THREADS) {
+        return (rt, r);
+    }
+    let rt = Arc::new(Runtime::new(true, w.files.clone(), knobs));
+    let result: Arc<Mutex<Option<Result<(), EvalErr>>>> = Arc::new(Mutex::new(None));
+    let (scheduler, shared) = SimScheduler::new(Strategy::Sticky { stay: 90 }, 0x5EED);
+    *rt.sched.lock().unwrap() = Some(shared);
+    let mut config = shuttle::Config::new();
+    config.stack_size = if cfg!(debug_assertions) { 64 << 20 } else { 8 << 20 };
+    config.failure_persistence = shuttle::FailurePersistence::None;
+    config.max_steps = shuttle::MaxSteps::FailAfter(2_000_000);
+    config.silence_warnings = true;
+    let runner = shuttle::Runner::new(scheduler, config);
+    let (rt2, res2, forms2) = (rt.clone(), result.clone(), forms.to_vec());
+    let _quiet = QuietStderr::new();
+    let outcome = std::panic::catch_unwind(std::panic::AssertUnwindSafe(|| {
+        runner.run(move || {
+            let r = rt2.run_program(&forms2);
+            *res2.lock().unwrap() = Some(r);
+        })
+    }));
+    let r = match outcome {
+        Ok(_) => result.lock().unwrap().take().unwrap_or(Ok(())),
+        Err(_) => Err(EvalErr::Runtime("the reference run with one scanner thread did not finish (deadlock or no progress)".into())),
+    };
+    (rt, r)
+}
+
 /// Streams per destination of a sequential scan over `subset` (in that order) of the files.
 fn sequential_streams(w: &Workload, forms: &[Sexp], subset: &[usize]) -> Result<BTreeMap<String, String>, EvalErr> {
     let mut knobs = knobs_for(w, true);
     knobs.partition = vec![subset.to_vec()];
-    let rt = Arc::new(Runtime::new(false, w.files.clone(), knobs));
-    on_big_stack(|| rt.run_program(forms))?;
+    let (rt, r) = reference_run(w, forms, knobs);
+    r?;
     let dests = rt.destinations();
     let mut out: BTreeMap<String, String> = BTreeMap::new();
     for e in rt.log.lock().unwrap().iter() {
@@ -514,8 +550,8 @@ pub fn prepare_program(w: &Workload, program: String, io_keys: Option<Vec<u32>>)
         Err(e) if e.contains("unknown string escape") => return Prep::Discard(format!("unreadable program: {e}")),
         Err(e) => return Prep::Harness(format!("emitted program of a benign workload is unreadable: {e}\n{program}")),
     };
-    let rt = Arc::new(Runtime::new(false, w.files.clone(), knobs_for(w, true)));
-    match on_big_stack(|| rt.run_program(&forms)) {
+    let (rt, first_run) = reference_run(w, &forms, knobs_for(w, true));
+    match first_run.map_err(EvalErr::settle) {
         Ok(()) => {}
         Err(EvalErr::Unsupported(e)) => return Prep::Harness(format!("stub runtime cannot evaluate the program: {e}\n{program}")),
         // An error even on one thread is this property's business only when it is about a mutex (a
@@ -532,6 +568,7 @@ pub fn prepare_program(w: &Workload, program: String, io_keys: Option<Vec<u32>>)
                 detail: format!("the emitted program raises an error before or after the scan even on one thread: {e}"),
             })
         }
+        Err(EvalErr::TailCall(_)) => return Prep::Harness("internal: tail call escaped its procedure".into()),
     }
     let log = rt.log.lock().unwrap().clone();
     let dests = rt.destinations();
@@ -807,6 +844,7 @@ pub fn judge(w: &Workload, prep: &Prepared, ex: &Exec) -> (Verdict, Metrics) {
             }
             Ev::Error { thread, file, error } => match error {
                 EvalErr::Unsupported(e) => return (Verdict::Harness(format!("stub runtime cannot evaluate: {e}")), m),
+                EvalErr::TailCall(_) => return (Verdict::Harness("internal: tail call escaped its procedure".into()), m),
                 EvalErr::Runtime(e) | EvalErr::Thrown(e, _) => {
                     return (
                         vio(
@@ -1819,6 +1857,17 @@ pub fn selftests() -> Vec<(&'static str, bool, String)> {
         ),
         None,
         1500,
+        None,
+    );
+    case(
+        "a loop of 20 000 iterations written as tail recursion (named let, cond, when, mutual recursion) does not nest: evaluated; never torn",
+        &w,
+        wrap_program(
+            "(p (current-output-port)) (m (make-mutex)) (count (lambda (n) (let loop ((i 0) (acc 0)) (cond ((= i n) acc) (else (loop (+ i 1) (+ acc 1))))))) (even2? (letrec ((e? (lambda (n) (if (= n 0) #t (o? (- n 1))))) (o? (lambda (n) (if (= n 0) #f (e? (- n 1)))))) e?)) (pr (lambda (l) (when (and (= (count 20000) 20000) (even2? 5000)) (with-mutex m (display l p) (display #\\x0a p)))))",
+            "(call-with-relative-path pr)",
+        ),
+        None,
+        30,
         None,
     );
     case(
